@@ -39,10 +39,10 @@ func (v tval) String() string {
 
 type tableEval struct {
 	c      *Ctx
-	leaf   func(f *Func, e ast.Expr) (tval, bool) // rule-specific operands
-	effect func(f *Func, call *ast.CallExpr) bool // statement-level calls the rule knows about (recorded or ignored)
+	leaf   func(f *Func, e ast.Expr) (tval, bool)    // rule-specific operands
+	effect func(f *Func, call *ast.CallExpr) bool    // statement-level calls the rule knows about (recorded or ignored)
 	field  func(base tval, name string) (tval, bool) // field of a symbolic object produced by leaf
-	why    string                                 // set when undecided
+	why    string                                    // set when undecided
 	depth  int
 }
 
